@@ -3423,7 +3423,9 @@ static Token *function(Token *tok, Type *basety, VarAttr *attr) {
     fn->is_inline = attr->is_inline;
   }
 
-  fn->is_root = !(fn->is_static && fn->is_inline);
+  // A reference from file scope may have made it a root already.
+  if (!(fn->is_static && fn->is_inline))
+    fn->is_root = true;
 
   if (consume(&tok, tok, ";"))
     return tok;
@@ -3461,6 +3463,7 @@ static Token *function(Token *tok, Type *basety, VarAttr *attr) {
   fn->locals = locals;
   leave_scope();
   resolve_goto_labels();
+  current_fn = NULL;
   return tok;
 }
 
